@@ -119,6 +119,18 @@ func (value Value) Compare(other Value) int {
 		}
 
 	case TypeIDFloat:
+		// NaN is ordered before every other float and equal to itself,
+		// so that Compare stays a total preorder (NaN < x and NaN > x are both false in Go).
+		valueIsNaN, otherIsNaN := value.Float != value.Float, other.Float != other.Float
+		if valueIsNaN || otherIsNaN {
+			if valueIsNaN && otherIsNaN {
+				return 0
+			} else if valueIsNaN {
+				return -1
+			} else {
+				return 1
+			}
+		}
 		if value.Float < other.Float {
 			return -1
 		} else if value.Float > other.Float {
@@ -260,7 +272,14 @@ func (value Value) hash(hash uint64) uint64 {
 		hash = fnv1a.AddUint64(hash, uint64(value.Int))
 
 	case TypeIDFloat:
-		hash = fnv1a.AddUint64(hash, math.Float64bits(value.Float))
+		// Values which Compare as equal must hash equally: -0 and +0, and all NaNs.
+		float := value.Float
+		if float == 0 {
+			float = 0
+		} else if float != float {
+			float = math.NaN()
+		}
+		hash = fnv1a.AddUint64(hash, math.Float64bits(float))
 
 	case TypeIDBoolean:
 		if value.Boolean {
